@@ -32,6 +32,7 @@ type hierarchy struct {
 	directed   bool
 	qOrig      func(comms [][]graph.Node) ([]float64, *vk.Failure) // gonum Q on the original graph
 	qLevel     func(lv level) ([]float64, *vk.Failure)             // gonum Q on the reduced graph with its Structure
+	qLevelNil  func(lv level) ([]float64, *vk.Failure)             // gonum Q on the reduced graph with communities == nil
 }
 
 func isNilIface(x any) bool {
@@ -316,6 +317,29 @@ func (h *hierarchy) checkLevels(lv []level) *vk.Failure {
 				}
 			}
 		}
+		// Q(reduced graph, nil): the unclustered score of the reduced graph,
+		// whose nodes carry self weights, equals the defining double sum
+		// with every node of this level alone, i.e. Q of the original graph
+		// for the partition this level's nodes stand for.
+		{
+			alone := make([]int, k)
+			for i := range alone {
+				alone[i] = i
+			}
+			_, perNil, normsNil := h.objective(Rs, alone)
+			got, f := h.qLevelNil(lvl)
+			if f != nil {
+				return f
+			}
+			for l := range perNil {
+				if h.w[l] == 0 || normsNil[l] == 0 {
+					continue
+				}
+				if !(math.Abs(got[l]-perNil[l]) <= tolQ) {
+					return vk.Failf(name+"-q-nil-communities-on-reduced", "level %d layer %d: Q(reduced graph, nil, resolution %v) = %v, the defining double sum with singleton communities over the reduced graph (self weights included) gives %v", L, l, h.res[l], got[l], perNil[l])
+				}
+			}
+		}
 		// never worse than the previous level / the singleton partition
 		if obj < prevObj-1e-9*sc {
 			return vk.Failf(lname+"-q-decreases", "level %d: Q=%v is below the previous level (singletons for level 0) %v", L, obj, prevObj)
@@ -449,6 +473,11 @@ func checkLouvain(c lvCase) *vk.Failure {
 		f := vk.MustReturn("q-on-reduced-panics", func() { q = community.Q(l.layers[0], l.structure, gamma) })
 		return []float64{q}, f
 	}
+	h.qLevelNil = func(l level) ([]float64, *vk.Failure) {
+		var q float64
+		f := vk.MustReturn("q-on-reduced-panics", func() { q = community.Q(l.layers[0], nil, gamma) })
+		return []float64{q}, f
+	}
 	if f := h.checkLevels(lv); f != nil {
 		return f
 	}
@@ -491,7 +520,7 @@ func TestLouvain(t *testing.T) {
 		g := dg[i/3]
 		return lvCase{G: graphFromMask(g.n, true, g.mask), Gamma: vk.F(gammas[i%3]), S1: uint64(i), S2: 11, Weighted: i%2 == 0, NegEdge: -1}
 	}, checkLouvain)
-	vk.Run(t, "louvain", vk.Opts{Quick: 3000, Thorough: 70000}, drawLouvain, checkLouvain)
+	vk.Run(t, "louvain", vk.Opts{Quick: 6000, Thorough: 140000}, drawLouvain, checkLouvain)
 }
 
 // ---- ModularizeMultiplex ------------------------------------------------------------
@@ -592,6 +621,11 @@ func checkLouvainMx(c lvMxCase) *vk.Failure {
 		f := vk.MustReturn("qmx-on-reduced-panics", func() { q = community.QMultiplex(l.self.(community.Multiplex), l.structure, mm.wArg, mm.resArg) })
 		return q, f
 	}
+	h.qLevelNil = func(l level) ([]float64, *vk.Failure) {
+		var q []float64
+		f := vk.MustReturn("qmx-on-reduced-panics", func() { q = community.QMultiplex(l.self.(community.Multiplex), nil, mm.wArg, mm.resArg) })
+		return q, f
+	}
 	if f := h.checkLevels(lv); f != nil {
 		return f
 	}
@@ -624,7 +658,7 @@ func checkLouvainMx(c lvMxCase) *vk.Failure {
 }
 
 func TestLouvainMultiplex(t *testing.T) {
-	vk.Run(t, "louvain-mx", vk.Opts{Quick: 3000, Thorough: 70000}, func(t *rapid.T) lvMxCase {
+	vk.Run(t, "louvain-mx", vk.Opts{Quick: 6000, Thorough: 140000}, func(t *rapid.T) lvMxCase {
 		c := lvMxCase{M: drawMx(t, 30, true, false)}
 		c.M.Labels, c.M.NilComms = nil, false
 		c.All = rapid.Bool().Draw(t, "all")
